@@ -41,6 +41,15 @@ def _via_update(name, attrs, alpha, M, groups):
     return est
 
 
+def guarded(chk, key, rp, fn, *args, **kw):
+    """run the implementation on a valid input; an exception there is a concrete failing input (no value returned at all)"""
+    try:
+        return fn(*args, **kw)
+    except Exception as e:  # noqa
+        chk.fail(key + ":raised", f"{type(e).__name__} on a valid input: {e}", rp, layer="L3")
+        return None
+
+
 def impl_linear(W, alpha, groups=None, route="direct"):
     if route == "direct" and PG is not None and hasattr(PG, "linear_prox_grad") and hasattr(PG, "group_linear_prox_grad"):
         return PG.linear_prox_grad(W, alpha) if groups is None else PG.group_linear_prox_grad(groups, W, alpha)
@@ -286,16 +295,20 @@ def stream_rows(chk, i, rng):
     fix_skip_scope(V, U, alpha, [[j] for j in range(d)])
     rp = {"op": "rows", "W": W.tolist(), "V": V.tolist(), "U": U.tolist(), "alpha": alpha, "M": M}
     # group lasso
-    got = impl_linear(W, alpha)
+    got = guarded(chk, "linear_prox_grad", rp, impl_linear, W, alpha)
     exp = model_linear(chk, W, alpha)
-    ok = True
-    for j in range(d):
+    ok = got is not None
+    for j in range(d if ok else 0):
         ok &= compare(chk, "linear_prox_grad", got[j], exp[j], scale_of(W[j], [alpha]), dict(rp, row=j),
                       lasso_clear(W[j], alpha), is_dyadic(W[j]))
         ok &= oracle_lasso(chk, "linear_prox_grad", W[j], got[j], alpha, rng, dict(rp, row=j))
     # hierarchical
-    gb, gt = impl_mlp(V, U, alpha, M)
+    res = guarded(chk, "mlp_prox_grad", rp, impl_mlp, V, U, alpha, M)
     eb, et = model_mlp(chk, V, U, alpha, M)
+    if res is None or got is None:
+        chk.count(None, n=2)
+        return
+    gb, gt = res
     clipped = []
     for j in range(d):
         sc = scale_of(V[j], U[j], [alpha])
@@ -323,10 +336,14 @@ def check_groups_case(chk, rng, groups, d, hv, hu, alpha, M, rp, sig_stream, rou
     fix_skip_scope(V, U, alpha, groups)
     rp = dict(rp, groups=groups, W=W.tolist(), V=V.tolist(), U=U.tolist(), alpha=alpha, M=M, route=route)
     ok = True
-    got = impl_linear(W, alpha, groups, route=route)
+    got = guarded(chk, "group_linear_prox_grad", rp, impl_linear, W, alpha, groups, route=route)
     exp = model_linear(chk, W, alpha, groups)
-    gb, gt = impl_mlp(V, U, alpha, M, groups, route=route)
+    res = guarded(chk, "group_mlp_prox_grad", rp, impl_mlp, V, U, alpha, M, groups, route=route)
     em = model_mlp(chk, V, U, alpha, M, groups)
+    if got is None or res is None:
+        chk.count(None, n=2)
+        return
+    gb, gt = res
     if exp is None or em is None:
         chk.fail("group:model-index-error", "the model reports IndexError on in-range groups", rp)
         return
@@ -424,12 +441,16 @@ def stream_zero_skip(chk, i, rng):
     grouped = i % 2 == 1
     groups = [[j] for j in range(d)]
     rp = {"op": "zero_skip", "V": V.tolist(), "U": U.tolist(), "alpha": alpha, "M": M, "grouped": grouped}
-    gb, gt = impl_mlp(V, U, alpha, M, groups if grouped else None)
+    key = "group_mlp_prox_grad:zero-skip" if grouped else "mlp_prox_grad:zero-skip"
+    res = guarded(chk, key, rp, impl_mlp, V, U, alpha, M, groups if grouped else None)
+    if res is None:
+        chk.count(None)
+        return
+    gb, gt = res
     if grouped:
         eb, et = model_mlp(chk, V, U, alpha, M, groups)
     else:
         eb, et = model_mlp(chk, V, U, alpha, M)
-    key = "group_mlp_prox_grad:zero-skip" if grouped else "mlp_prox_grad:zero-skip"
     ok = True
     if np.any(np.asarray(gb[z]) != 0) or np.any(np.asarray(gt[z]) != 0) or not np.all(np.isfinite(gb)) or not np.all(np.isfinite(gt)):
         chk.fail(key, f"zero skip/hidden row with alpha>0 is not mapped to exact zeros: beta={np.asarray(gb[z]).tolist()} theta={np.asarray(gt[z]).tolist()}", rp, layer="L3")
